@@ -74,8 +74,8 @@ async fn run_calls<S: Storage>(s: &S, g: &mut Gen, len: usize, out: &mut Vec<Val
             },
             2 => {
                 let n = g.rng.gen_range(0..4);
-                let mut seen = BTreeSet::new();
-                let docs: Vec<Document> = (0..n).map(|_| Document::new(g.id(), g.ts(), g.payload())).filter(|d| seen.insert(d.id())).collect();
+                // the same id may occur more than once in one call: the last version stays
+                let docs: Vec<Document> = (0..n).map(|_| Document::new(g.id(), g.ts(), g.payload())).collect();
                 out.push(json!({"ev": "put", "ks": ks, "docs": docs.iter().map(|d| json!({"id": d.id().to_string(), "ts": d.last_updated().to_string(), "dig": digest(d.data())})).collect::<Vec<_>>()}));
                 for d in &docs {
                     live.entry(ks.clone()).or_default().insert(d.id());
@@ -90,8 +90,7 @@ async fn run_calls<S: Storage>(s: &S, g: &mut Gen, len: usize, out: &mut Vec<Val
             },
             4 => {
                 let n = g.rng.gen_range(0..4);
-                let mut seen = BTreeSet::new();
-                let docs: Vec<DocumentMetadata> = (0..n).map(|_| DocumentMetadata::new(g.id(), g.ts())).filter(|d| seen.insert(d.id)).collect();
+                let docs: Vec<DocumentMetadata> = (0..n).map(|_| DocumentMetadata::new(g.id(), g.ts())).collect();
                 out.push(json!({"ev": "mark", "ks": ks, "docs": docs.iter().map(|d| json!({"id": d.id.to_string(), "ts": d.last_updated.to_string(), "dig": ""})).collect::<Vec<_>>()}));
                 for d in &docs {
                     live.entry(ks.clone()).or_default().remove(&d.id);
